@@ -69,7 +69,11 @@ func init() {
 			case *Sym:
 				neg := "(not " + c.T + ")"
 				it.assertQ++
-				switch it.sol.check(neg) {
+				ans := it.sol.check(neg)
+				if it.cfg.CrossCheck > 0 {
+					it.crossSample(neg, ans, msg)
+				}
+				switch ans {
 				case "unsat":
 				case "sat":
 					it.viols = append(it.viols, &Violation{Kind: "assert", Label: msg, Tags: append([]string{}, it.tags...), Model: it.sol.model(neg, it.syms), Witness: it.witnessUnder(neg), Decisions: it.ex.decisions()})
